@@ -187,8 +187,8 @@ impl FreeList {
         // append the released free list pages
         to_push.extend(self.released_portions.drain(..));
 
-        let new_pages = self.preallocate(&mut to_push, bump);
-        let pages = self.push_and_encode(page_pool, &to_push, new_pages);
+        let (new_pages, head_untouched) = self.preallocate(&mut to_push, bump);
+        let pages = self.push_and_encode(page_pool, &to_push, new_pages, head_untouched);
 
         // preallocate pops, therefore, we must set it back.
         self.pop = false;
@@ -202,11 +202,15 @@ impl FreeList {
 
     // determines the exact number of pops and bumps which are needed in order to fulfill the
     // request. also schedules pushing of all touched pages' previous page numbers.
+    //
+    // the returned flag is set when the head portion has merely been uncovered by pops and was not
+    // prepared for a rewrite: it is exactly what the previous state has on disk at that page
+    // number.
     fn preallocate(
         &mut self,
         to_push: &mut Vec<PageNumber>,
         bump: &mut PageNumber,
-    ) -> Vec<PageNumber> {
+    ) -> (Vec<PageNumber>, bool) {
         let mut new_pages = Vec::new();
 
         // allocate a new page for rewriting the head (if any).
@@ -309,7 +313,8 @@ impl FreeList {
             i += MAX_PNS_PER_PAGE;
         }
 
-        new_pages
+        let head_untouched = new_full_portion && !self.portions.is_empty();
+        (new_pages, head_untouched)
     }
 
     fn push_and_encode(
@@ -317,6 +322,7 @@ impl FreeList {
         page_pool: &PagePool,
         to_push: &[PageNumber],
         new_pages: Vec<PageNumber>,
+        mut head_untouched: bool,
     ) -> Vec<(PageNumber, FatPage)> {
         let mut encoded = Vec::new();
         let mut new_pages = new_pages.into_iter().peekable();
@@ -337,7 +343,12 @@ impl FreeList {
                 && i + 1 == to_push.len();
 
             if head_full || fragmentation {
-                encoded.extend(self.encode_head(page_pool));
+                // an untouched head is still referenced by the previous state under its old page
+                // number and is unchanged: writing it again would overwrite a live page in place
+                // before the new state is committed.
+                if !std::mem::replace(&mut head_untouched, false) {
+                    encoded.extend(self.encode_head(page_pool));
+                }
                 // UNWRAP: we've always allocated enough PNs for all appended PNs.
                 let new_head_pn = new_pages.next().unwrap();
                 self.portions.push((new_head_pn, Vec::new()));
